@@ -8,5 +8,5 @@ INIT Init
 NEXT Next
 INVARIANT ReprInv
 INVARIANT ReadLaws
-INVARIANT ImmutableInv
 PROPERTY PostSpec
+VIEW View
